@@ -145,7 +145,7 @@ Proof.
     cbn [enc app dec].
     rewrite dec_ident_ident by lia.
     rewrite <- app_assoc, dec_len_enc_len.
-    + unfold blen. rewrite Nat2N.id, take_app. reflexivity.
+    + rewrite take_n_take. unfold blen. rewrite Nat2N.id, take_app. reflexivity.
     + unfold len_ok in *. cbn [enc] in Hlen. unfold blen in *. cbn [length] in Hlen.
       rewrite app_length in Hlen. lia. }
   assert (HC : forall c t k, Q k -> P (Cons c t k)).
@@ -157,7 +157,7 @@ Proof.
     assert (len_ok (blen (encs k))) as Hlk.
     { unfold len_ok, blen in *. cbn [length] in Hlen. rewrite app_length in Hlen. lia. }
     rewrite <- app_assoc, dec_len_enc_len by exact Hlk.
-    unfold blen at 1. rewrite Nat2N.id, take_app.
+    rewrite take_n_take. unfold blen at 1. rewrite Nat2N.id, take_app.
     rewrite IH; [reflexivity|exact Hk|exact Hlk|].
     repeat (rewrite app_length in Hf || cbn [length] in Hf). lia. }
   assert (HN : Q []).
@@ -196,6 +196,7 @@ Proof.
     apply ident_dec_ident in Ei as [-> Ht].
     destruct (dec_len bs) as [[n r2]|] eqn:El; [|discriminate].
     apply enc_len_dec_len in El. subst bs.
+    rewrite take_n_take in H.
     destruct (take (N.to_nat n) r2) as [[content rest]|] eqn:Et; [|discriminate].
     apply take_spec in Et as [-> Hn].
     assert (n = blen content) as -> by (unfold blen; lia).
